@@ -243,7 +243,10 @@ def correspondence(prop, ctx, mod):
         il_c = mod.canon_impl(il) if hasattr(mod, "canon_impl") else il
         if hasattr(mod, "canon_model"):
             mres = mod.canon_model(op, mres)
-        same = mod.equiv(op, il_c, mres) if hasattr(mod, "equiv") else (il_c == mres)
+        if hasattr(mod, "agree"):      # the model may admit a *set* of outcomes (e.g. Go map iteration order)
+            same = mod.agree(op, il_c, mres, tag)
+        else:
+            same = mod.equiv(op, il_c, mres) if hasattr(mod, "equiv") else (il_c == mres)
         kinds[" ".join(op.split()[:2])] += 1
         weight += mod.weight(op) if hasattr(mod, "weight") else 1
         tags[mod.branch(op, mres, tag) if hasattr(mod, "branch") else mres.split(" ")[0]] += 1
